@@ -63,7 +63,7 @@ func serverEffects(c *core.Ctx, R string) {
 	}
 	refused := nilGuard(true, func(x *core.Unit, e ast.Expr) bool { return isLocalAnyDepth(x, e, "codeMessage") })
 	// ---- HandleRequest$callback ----
-	if u := c.Fn(R, srvHandle+"$callback"); u != nil {
+	if u := c.Fn(R, srvHandle+"$callback"); u != nil && localAnchors(c, R, u, "codeMessage") {
 		hasSid := func(x *core.Unit, br core.Branch) int {
 			cmp, ok := x.BranchCmp(br)
 			if !ok || cmp.Val == nil || trimQuotes(cmp.Val.ExactString()) != "" {
@@ -112,7 +112,7 @@ func serverEffects(c *core.Ctx, R string) {
 		c.Check(R, srvHandle+"$callback/refused→return", u.Pos(), ret, "a refused request goes no further")
 	}
 	// ---- HandleUpgrade$callback ----
-	if u := c.Fn(R, "engine.(*server).HandleUpgrade$callback"); u != nil {
+	if u := c.Fn(R, "engine.(*server).HandleUpgrade$callback"); u != nil && localAnchors(c, R, u, "codeMessage") {
 		upErr := gErrNonNil()
 		f := requireEffects(c, R, u, []effect{
 			{name: "refused→emitAbortRequest", match: mName("emitAbortRequest"), on: []core.Guard{refused}},
@@ -139,7 +139,7 @@ func serverEffects(c *core.Ctx, R string) {
 		}
 	}
 	// ---- onWebSocket ----
-	if u := c.Fn(R, srvOnWS); u != nil {
+	if u := c.Fn(R, srvOnWS); u != nil && localAnchors(c, R, u, "id", "onUpgradeError") {
 		g := u.Graph()
 		noUp := boolCallGuard(false, "transports.(TransportCtor).HandlesUpgrades")
 		for _, cl := range u.Calls() {
@@ -182,23 +182,7 @@ func serverEffects(c *core.Ctx, R string) {
 			}
 		}
 		c.Check(R, srvOnWS+"/ctx.Websocket=wsc-before-any-transport", u.Pos(), okSet, "the context carries the connection before a transport is constructed from it")
-		noSid := func(x *core.Unit, br core.Branch) int {
-			cmp, ok := x.BranchCmp(br)
-			if !ok || cmp.Val == nil {
-				return 0
-			}
-			ce, _ := ast.Unparen(cmp.X).(*ast.CallExpr)
-			if ce == nil || calleeNameOf0(ce) != "len" || cmp.Val.ExactString() != "0" {
-				return 0
-			}
-			if cmp.Op.String() == "==" {
-				return 1
-			}
-			if cmp.Op.String() == "!=" || cmp.Op.String() == ">" {
-				return -1
-			}
-			return 0
-		}
+		noSid := gNot(gStrLocalNonEmpty("id"))
 		requireEffects(c, R, u, []effect{
 			{name: "no-sid→Handshake", match: mName("Handshake"), on: []core.Guard{noSid}},
 			{name: "sid→MaybeUpgrade", match: mName("MaybeUpgrade"), on: []core.Guard{gNot(noSid)}},
@@ -316,23 +300,7 @@ func serverEffects(c *core.Ctx, R string) {
 			}
 			return 0
 		}
-		emptySid := func(x *core.Unit, br core.Branch) int {
-			cmp, ok := x.BranchCmp(br)
-			if !ok || cmp.Val == nil || cmp.Val.ExactString() != "0" {
-				return 0
-			}
-			ce, _ := ast.Unparen(cmp.X).(*ast.CallExpr)
-			if ce == nil || calleeNameOf0(ce) != "len" || len(ce.Args) != 1 || !strings.HasSuffix(selPath(ce.Args[0]), ".Sid") {
-				return 0
-			}
-			if cmp.Op.String() == "==" {
-				return 1
-			}
-			if cmp.Op.String() == "!=" || cmp.Op.String() == ">" {
-				return -1
-			}
-			return 0
-		}
+		emptySid := gNot(gStrExprNonEmpty(func(x *core.Unit, e ast.Expr) bool { return strings.HasSuffix(selPath(e), ".Sid") }))
 		requireEffects(c, R, u, []effect{
 			{name: "not-OPEN→abortUpgrade", match: mName("abortUpgrade"), on: []core.Guard{notOpen}},
 			{name: "OPEN∧empty→EIO=4", match: func(x *core.Unit, cl *core.Call) bool {
@@ -364,7 +332,7 @@ func serverEffects(c *core.Ctx, R string) {
 		}
 	}
 	// ---- abortRequest / abortUpgrade ----
-	if u := c.Fn(R, "engine.abortRequest"); u != nil {
+	if u := c.Fn(R, "engine.abortRequest"); u != nil && localAnchors(c, R, u, "errorContext", "message") {
 		g := u.Graph()
 		info := u.Info()
 		hasCtx := gNilLocal("errorContext", true)
@@ -396,7 +364,7 @@ func serverEffects(c *core.Ctx, R string) {
 			{name: "marshal-failed→fallback-body", match: mKey("io.WriteString"), off: []core.Guard{marshalOK}},
 		})
 	}
-	if u := c.Fn(R, "engine.abortUpgrade"); u != nil {
+	if u := c.Fn(R, "engine.abortUpgrade"); u != nil && localAnchors(c, R, u, "errorContext", "message") {
 		{
 			g := u.Graph()
 			info := u.Info()
